@@ -83,7 +83,15 @@ func child(args []string) {
 		core.Fatalf("open out: %v", err)
 	}
 	defer f.Close()
+	violated := 0
 	for i := *from; i < *to; i++ {
+		if violated >= 3 {
+			// three violating scenarios in one batch: the rest of the batch adds nothing (and with a library that
+			// deadlocks every further scenario would sit out its bounds)
+			f.Close()
+			fmt.Printf("ENOUGH %s %s %d\n", *prop, *family, i)
+			os.Exit(76)
+		}
 		fmt.Printf("START %s %s %d\n", *prop, *family, i)
 		c := core.NewCtx(*prop, *tier, *family, i, *seed, *race)
 		done := core.Go(func() { fam.Run(c) })
@@ -106,6 +114,9 @@ func child(args []string) {
 		}
 		f.Write(append(b, '\n'))
 		fmt.Printf("END %s %s %d %s\n", *prop, *family, i, c.R.Verdict)
+		if c.R.Verdict == core.Violated {
+			violated++
+		}
 		if abandoned {
 			f.Close()
 			fmt.Printf("ABANDONED %s %s %d\n", *prop, *family, i)
@@ -506,6 +517,9 @@ func runBatch(self string, p *core.Property, tier string, seed uint64, b batch, 
 			os.Remove(out)
 			return
 		}
+		if code == 76 { // the child stopped after three violating scenarios: the rest of the batch is not run
+			return
+		}
 		if code == 75 { // the child abandoned a scenario that could not wind down after a violation: go on after it
 			from = done
 			if violationsSoFar.Load() >= 6 {
@@ -522,6 +536,12 @@ func runBatch(self string, p *core.Property, tier string, seed uint64, b batch, 
 		}
 		if code == 124 || code == 137 || strings.Contains(logs, "SIGQUIT: quit") {
 			timeouts++
+			for _, r := range rs {
+				if r.Verdict == core.Violated {
+					// violations were recorded before the watchdog fired: the batch is not retried
+					return
+				}
+			}
 			if timeouts >= 2 {
 				errs = append(errs, fmt.Sprintf("batch %s scenario %d timed out twice (log %s)", tag, idx, logp))
 				return
